@@ -15,15 +15,15 @@ import (
 func init() { register("C05", genC05) }
 
 type c05Desc struct {
-	Kind    string `json:"kind"`  // stall | sweep | hook
-	Who     string `json:"who"`   // rt | e<k>
-	Phase   string `json:"phase"` // stall phase
-	NExt    int    `json:"extensions"`
-	T       int64  `json:"timeout_ms"`
-	Ignores bool   `json:"ignores_term_and_shutdown"`
-	Delta   int    `json:"delta_ms,omitempty"`  // sweep: response at T+delta
-	Hook    string `json:"hook,omitempty"`      // hook schedule name
-	Rounds  []string `json:"rounds,omitempty"`  // repeat: per-invocation directive ("ok" or "<who>:<stall phase>")
+	Kind    string   `json:"kind"`  // stall | sweep | hook
+	Who     string   `json:"who"`   // rt | e<k>
+	Phase   string   `json:"phase"` // stall phase
+	NExt    int      `json:"extensions"`
+	T       int64    `json:"timeout_ms"`
+	Ignores bool     `json:"ignores_term_and_shutdown"`
+	Delta   int      `json:"delta_ms,omitempty"` // sweep: response at T+delta
+	Hook    string   `json:"hook,omitempty"`     // hook schedule name
+	Rounds  []string `json:"rounds,omitempty"`   // repeat: per-invocation directive ("ok" or "<who>:<stall phase>")
 }
 
 func (d c05Desc) id() string {
